@@ -190,10 +190,37 @@ Proof.
   destruct (t_granted th); [apply urel_unlock|apply urel_dequeue]; exact Hur.
 Qed.
 
+(* ---- store read failure: [resume_read_fail w] is a non-publishing [finish] of [w] -- after an [unlock w] at
+   [PLocked], which may grant queued threads exactly as the granted branch of [resume_cancelled w] does -- or, for
+   SaveMeta, a pc move of [w] ------------------------------------------------------------------------------------- *)
+Lemma urel_set_th : forall t w th u1 u, urel t u1 u -> urel t (set_th w th u1) (set_th w th u).
+Proof.
+  intros t w th u1 u (H1 & H2 & H3 & H4 & H5 & H6 & H7 & H8 & H9 & H10 & H11 & H12 & H13 & H14 & H15).
+  unfold urel, set_th. cbn. repeat split; auto. apply agree_set. exact H14.
+Qed.
+
+Lemma frame_resume_read_fail : forall t s1 s w, frel t s1 s -> w <> t ->
+  orel t (resume_read_fail s1 w) (resume_read_fail s w).
+Proof.
+  intros t s1 s w H Hw. pose proof (urel_of_state t s1 s H) as Hur. destruct H as (Hobs & Hg & Hu & Ha & Hq).
+  unfold resume_read_fail. rewrite (Ha w Hw), Hg.
+  destruct (get_thread (threads s) w) as [th|]; [|exact I].
+  destruct (negb (Nat.eqb (t_gen th) (gen s))); [exact I|].
+  cbv zeta.
+  destruct (t_pc th); try exact I.
+  all: repeat match goal with
+       | |- orel _ (match ?c with _ => _ end) _ => destruct c eqn:?
+       end.
+  all: try exact I.
+  all: unfold orel; apply frel_to_state.
+  all: first [ apply urel_finish; first [exact Hur | apply urel_unlock; exact Hur] | apply urel_set_th; exact Hur ].
+Qed.
+
 (* an action that does not name [t] *)
 Definition avoids (t : tid) (a : action) : Prop :=
   match a with
   | AStart w _ => w <> t | AResume w => w <> t | ACancel w => w <> t | AResumeCancelled w => w <> t
+  | AResumeReadFail w => w <> t
   | _ => True
   end.
 
@@ -208,6 +235,7 @@ Proof.
   - simpl. apply frame_crash. exact H.
   - apply frame_cancel; assumption.
   - apply frame_resume_cancelled; assumption.
+  - apply frame_resume_read_fail; assumption.
 Qed.
 
 Lemma frame_run : forall t acts s1 s, frel t s1 s -> Forall (avoids t) acts -> orel t (run s1 acts) (run s acts).
